@@ -3,7 +3,7 @@ import copy
 
 from . import canon, monitors
 from .model import ANY
-from .seams import SimKill, AUDIT
+from .seams import SimKill, AUDIT, RunTooBig
 
 
 class HostError(Exception):
@@ -151,8 +151,11 @@ def classify(exc):
 
 
 def _address_taint(node, v, rec):
-    if type(v) is str and ' at 0x' in v:
-        rec.tainted = True
+    if type(v) is str:
+        if len(v) > 3000000:
+            raise RunTooBig('a node evaluation returned a string of %d characters' % len(v))
+        if ' at 0x' in v:
+            rec.tainted = True
 
 
 class Out:
@@ -202,6 +205,8 @@ def real_eval(parser, src, names, budget=60000, rec=None, default_budget=False, 
         except SimKill:
             raise
         except BaseException as e:   # classification decides what it means
+            if type(e).__name__ in ('RunTimeout', 'RunTooBig'):
+                raise
             out = Out(classify(e), None, e, rec)
         finally:
             if audit:
@@ -215,6 +220,8 @@ def real_parse(parser, src):
     except SimKill:
         raise
     except BaseException as e:
+        if type(e).__name__ in ('RunTimeout', 'RunTooBig'):
+            raise
         return Out(classify(e), None, e)
 
 
@@ -239,6 +246,8 @@ def real_list_names(parser, src, consume=None):
     except SimKill:
         raise
     except BaseException as e:
+        if type(e).__name__ in ('RunTimeout', 'RunTooBig'):
+            raise
         o = Out(classify(e), None, e)
         o.value = got
         return o
